@@ -429,9 +429,9 @@ fn seg_txn(run: &mut Runner, r: &mut R) {
                 let mut st = rand_insert(r, &mut tabs[ti], part, nparts, faulty);
                 if s != 0 && faulty { if let Stmt::Insert { rows, .. } = &mut st { let last = rows.pop().unwrap(); rows.clear(); rows.push(last); } }
                 st
-            } else if k < 85 && upd_tables[ti] && open.is_empty() {
-                // UPDATE only while no session is open: a reader whose snapshot predates a twice-updated row panics in
-                // the delta walk (finding MultiDeltaChainMisread), besides UpdateStampsCreator
+            } else if k < 85 && upd_tables[ti] && s == 0 {
+                // autocommit UPDATEs, also while sessions are open: the shipped behaviour (every version carries the row
+                // creator's id, deviation UpdateStampsCreator) is modelled exactly by Db.tla
                 rand_update(r, &tabs[ti], 0, nparts)
             } else if s == 0 || !upd_tables[ti] {
                 rand_delete(r, &tabs[ti], part, nparts)
